@@ -130,8 +130,9 @@ pub fn find_all(re: &Regex, eng: Engine, enc: Enc, hay: &str, start: usize, limi
             }};
         }
         match (eng, enc) {
-            (Engine::Bt, Enc::Utf8) => drive!(rbe::find::<rbe::BacktrackExecutor>(re, hay, start)),
-            (Engine::Bt, Enc::Ascii) => drive!(rbe::find_ascii::<rbe::BacktrackExecutor>(re, hay, start)),
+            // the default executor is reached through the public entry points
+            (Engine::Bt, Enc::Utf8) => drive!(re.find_from(hay, start)),
+            (Engine::Bt, Enc::Ascii) => drive!(re.find_from_ascii(hay, start)),
             (Engine::Pike, Enc::Utf8) => drive!(rbe::find::<rbe::PikeVMExecutor>(re, hay, start)),
             (Engine::Pike, Enc::Ascii) => drive!(rbe::find_ascii::<rbe::PikeVMExecutor>(re, hay, start)),
         }
@@ -165,8 +166,8 @@ pub fn find_first(re: &Regex, hay: &str, start: usize, fuel: u64) -> (Out, regre
 pub fn first_with(re: &Regex, eng: Engine, enc: Enc, hay: &str, start: usize, fuel: u64) -> (Out, regress::verif::Report) {
     regress::verif::set_fuel(fuel);
     let r = catch_unwind(AssertUnwindSafe(|| match (eng, enc) {
-        (Engine::Bt, Enc::Utf8) => rbe::find::<rbe::BacktrackExecutor>(re, hay, start).next(),
-        (Engine::Bt, Enc::Ascii) => rbe::find_ascii::<rbe::BacktrackExecutor>(re, hay, start).next(),
+        (Engine::Bt, Enc::Utf8) => re.find_from(hay, start).next(),
+        (Engine::Bt, Enc::Ascii) => re.find_from_ascii(hay, start).next(),
         (Engine::Pike, Enc::Utf8) => rbe::find::<rbe::PikeVMExecutor>(re, hay, start).next(),
         (Engine::Pike, Enc::Ascii) => rbe::find_ascii::<rbe::PikeVMExecutor>(re, hay, start).next(),
     }));
